@@ -119,7 +119,12 @@ def choose(rng):
 
 
 def record_event(rng):
-    return observe(choose(rng))
+    """comparisons are total: a call that raises while it is being observed is an event of its own (a verdict)"""
+    a = choose(rng)
+    try:
+        return observe(a)
+    except Exception as ex:
+        return {"op": "raised", "args": a, "error": f"{type(ex).__name__}: {ex}"}
 
 
 def record_trace(job):
@@ -173,6 +178,10 @@ def run(ctx):
     ntr, nev = (300, 10) if th else (60, 8)
     jobs = [(ctx.seed * 100003 + 17 * i + 5, nev) for i in range(ntr)]
     traces = pool_map(record_trace, jobs, chunksize=max(1, ntr // 32))
+    for t in traces:                       # calls that raised: verdicts, not part of what TLC validates
+        for e in [e for e in t["ev"] if e["op"] == "raised"]:
+            ctx.violation(f"recorded call {describe(e['args'])} raised {e['error']}", {"kind": "trace", "event": e["args"], "clause": "raised"})
+        t["ev"] = [e for e in t["ev"] if e["op"] != "raised"]
     can = canary(traces)
     allt = traces + ([can] if can else [])
     _, defs = c18.model([], seed=ctx.seed)
@@ -207,7 +216,11 @@ def replay(ctx, case):
     from . import c18
     _, defs = c18.model([], seed=0)
     args = {k: v for k, v in case["event"].items() if k not in ("e", "t", "src", "nzc", "len", "norm2", "out")}
-    case = dict(case, event=observe(args))
+    try:
+        case = dict(case, event=observe(args))
+    except Exception as ex:
+        ctx.violation(f"recorded call {describe(args)} raised {type(ex).__name__}: {ex}", case)
+        return
     r, first = validate([{"seed": 0, "ev": [case["event"]]}], defs, 31)
     r.violated = None
     ctx.account(r, TRACE_MODULE, "replayed recorded call")
